@@ -16,6 +16,10 @@ def is_transparent_construct(n):
     c = n.get("c", ())
     if len(c) == 2 and c[1] is not None and c[1]["k"] == "defarg" and n.get("cls") == "std::basic_string":
         return True
+    if len(c) == 1 and n.get("cls") == "nano::tensor_t" and c[0] is not None and ("tensor_t<" in (c[0].get("t") or "")):
+        return True     # conversion between owning / mapping views of one tensor
+    if len(c) == 1 and n.get("cls") == "std::variant":
+        return True
     return len(c) == 1 and (n.get("copy") or n.get("cls") in ("std::basic_string_view", "std::basic_string", "std::function", "__gnu_cxx::__normal_iterator"))
 
 
